@@ -208,7 +208,7 @@ def explore_config(prop, cfg, judge, max_executions=200000, invariant=None, coll
         def inv(frames, trace):
             invariant(t, cfg, frames, lambda: case_for(trace))
     ex = Explorer(call, unit_points=unit, max_executions=max_executions, invariant=inv,
-                  max_seconds=90 if max_executions <= 400000 else 1500)
+                  max_seconds=600 if max_executions <= 400000 else 3000)
     with quiet():
         st = ex.explore(on_complete)
     t.c['configs'] += 1
